@@ -249,6 +249,74 @@ Proof.
   destruct (Forall2_in_l _ _ _ _ E0 Hl) as [e [_ He]]. eapply load_layer_parsed; eauto.
 Qed.
 
+(** ** C04 for the real signature: closedness of everything but the glyph domain *)
+Hypothesis HK : codecs_ok K.
+Hypothesis CK : codecs_closed K.
+
+Lemma lift_closed {X} (p : part (K_content K) (K_opts K) X) : part_closed p -> part_closed (lift K p).
+Proof. intros H c x Hd. simpl in Hd. destruct c; try discriminate. exact (H _ _ Hd). Qed.
+
+Lemma real_closed0 : sig_closed0 RS.
+Proof.
+  destruct CK. constructor; simpl; try (apply lift_closed; assumption).
+  - apply info_real_closed.
+  - exact kc_meta_norad.
+  - (* identifiers of the guidelines the info reader returns *)
+    intros c si Hd g Hg id Hid. destruct c as [c|d|r]; try discriminate.
+    destruct (FI.fi_load r) as [i| |] eqn:El; try discriminate. inversion Hd; subst si. clear Hd.
+    unfold of_info in Hg. simpl in Hg. destruct (FI.i_guides i) as [gs|] eqn:Eg; [|contradiction].
+    simpl in Hg. apply in_map_iff in Hg. destruct Hg as [x [Ex Hx]]. subst g. simpl in Hid.
+    pose proof (kc_info_ids r i El gs Eg) as F. rewrite Forall_forall in F. exact (F x Hx id Hid).
+  - intros i Hi. apply (info_ok_real_nodup _ i Hi).
+Qed.
+
+Lemma glyph_rules_set_gname : forall n g, name_valid n = true -> glyph_rules g -> glyph_rules (set_gname n g).
+Proof. intros n g Hn (R1 & R). split; [exact Hn|exact R]. Qed.
+
+(** the names under which glyphs are loaded are valid names *)
+Lemma loaded_glyph_names_valid : forall (t : tree RS) (f : font RS),
+  load RS t = Ok f ->
+  Forall (fun l => Forall (fun e : str * str * glyph => name_valid (fst (fst e)) = true) (l_glyphs l)) (f_layers RS f).
+Proof.
+  intros t f H.
+  destruct (load_elim RS t f H) as (mc & m & olib & il & og & ok & ls & _ & _ & _ & _ & _ & _ & _ & E8 & _ & F2 & _).
+  rewrite F2. unfold load_layers in E8. binv E8.
+  destruct (lc_precheck RS [] [] a); [discriminate|]. binv E8.
+  destruct (find_idx (is_default_dir RS) a0) as [i|]; [|discriminate]. inversion E8; subst ls.
+  apply Forall_forall. intros l Hl. apply in_move_to_front in Hl.
+  apply mapM_Forall2 in E0. apply Forall2_flip in E0.
+  destruct (Forall2_in_l _ _ _ _ E0 Hl) as [e [_ He]]. cbv beta in He. unfold load_layer in He.
+  destruct (alookup (snd e) (t_dirs RS t)) as [d|]; [|discriminate].
+  destruct (ld_contents RS d) as [cc|]; [|discriminate].
+  destruct (dec (P_contents RS) cc) as [cl|] eqn:Ecl; [|discriminate].
+  destruct (negb (nodupb (map (fun e0 : str * str => lower RS (snd e0)) cl))); [discriminate|].
+  binv He. inversion He; subst l. simpl.
+  assert (Hn : Forall (fun e0 : str * str => name_valid (fst e0) = true) cl).
+  { simpl in Ecl. destruct cc as [cb|?|?]; try discriminate. destruct CK. exact (kc_contents_names cb cl Ecl). }
+  apply mapM_Forall2 in E1. apply Forall_forall. intros x Hx. apply Forall2_flip in E1.
+  destruct (Forall2_in_l _ _ _ _ E1 Hx) as [ce [Hce Hld]]. cbv beta in Hld. unfold load_glyph in Hld.
+  destruct (alookup (snd ce) (ld_glifs RS d)); [|discriminate]. destruct (dec (P_glif RS) t0); [|discriminate].
+  inversion Hld; subst x. simpl. rewrite Forall_forall in Hn. exact (Hn ce Hce).
+Qed.
+
+(** the fixed point for every format-3 tree the real reader loads, assuming of the loaded glyphs only
+    what the reader does not guarantee ([glyph_rt_domain]) *)
+Theorem fixed_point_real : forall o (t : tree RS) (f : font RS) mc m,
+  load RS t = Ok f -> t_meta RS t = Some mc -> dec (P_meta RS) mc = Some m -> m_version m = 3 ->
+  Forall (fun l => Forall (fun e : str * str * glyph => glyph_rt_domain pf ff3 (snd e)) (l_glyphs l)) (f_layers RS f) ->
+  exists t', save RS o f = Ok t' /\ exists f', load RS t' = Ok f' /\ font_equiv RS f f'.
+Proof.
+  intros o t f mc m H Hm1 Hm2 Hv HD.
+  apply (fixed_point0 RS (real_sig_ok HK) real_closed0 o t f mc m H Hm1 Hm2 Hv).
+  pose proof (loaded_glyphs_rules_real t f H) as HR. pose proof (loaded_glyph_names_valid t f H) as HN.
+  rewrite Forall_forall in *. intros l Hl. specialize (HR l Hl). specialize (HN l Hl). specialize (HD l Hl).
+  rewrite Forall_forall in *. intros e He.
+  destruct (HR e He) as (g & G1 & G2 & G3). destruct (HD e He) as (D1 & D2 & D3 & D4 & D5).
+  split; simpl.
+  - unfold wf_glyph. split; [rewrite G3; apply glyph_rules_set_gname; [exact (HN e He)|exact G1]|]. auto.
+  - rewrite G3. reflexivity.
+Qed.
+
 End RealP.
 
 Lemma real_sample_wf : forall pf ff3, wf_glyph pf ff3 g_real_sample.
@@ -282,7 +350,12 @@ Definition id_codecs : codecs := {|
   K_groups := kpart KGroups (fun c => match c with KGroups m => Some m | _ => None end) eq;
   K_kerning := kpart KKerning (fun c => match c with KKerning m => Some m | _ => None end) eq;
   K_lc := kpart KPairs (fun c => match c with KPairs m => Some m | _ => None end) eq;
-  K_contents := kpart KPairs (fun c => match c with KPairs m => Some m | _ => None end) eq;
+  K_contents := {| enc := fun _ l => Some (KPairs l);
+                   dec := fun c => match c with
+                                   | KPairs m => if forallb (fun e => name_valid (fst e)) m then Some m else None
+                                   | _ => None
+                                   end;
+                   wf := fun l => forallb (fun e : str * str => name_valid (fst e)) l = true; peq := eq |};
   K_li := kpart KLi (fun c => match c with KLi m => Some m | _ => None end)
                 (fun a b => orel eq (fst a) (fst b) /\ orel pd_eq (snd a) (snd b));
   K_ceq := eq; K_wf_color := fun _ => True; K_lc_entry_wf := fun _ => True;
@@ -301,9 +374,19 @@ Lemma pd_eq_sym : forall a b, pd_eq a b -> pd_eq b a. Proof. intros a b H k. sym
 Lemma pd_eq_trans : forall a b c, pd_eq a b -> pd_eq b c -> pd_eq a c.
 Proof. intros a b c H1 H2 k. rewrite H1. apply H2. Qed.
 
+Lemma id_contents_ok : part_ok (K_contents id_codecs).
+Proof.
+  constructor; simpl.
+  - reflexivity.
+  - intros x y H. symmetry. exact H.
+  - intros x y z H1 H2. congruence.
+  - intros o x Hw. exists (KPairs x), x. rewrite Hw. auto.
+  - intros o1 o2 x c1 c2 _ H1 H2. inversion H1; inversion H2; subst. reflexivity.
+Qed.
+
 Theorem id_codecs_ok : codecs_ok id_codecs.
 Proof.
-  constructor; simpl;
+  constructor; simpl; try exact id_contents_ok;
     try (apply kpart_ok; intros; solve [congruence | reflexivity | eauto using pd_eq_refl, pd_eq_sym, pd_eq_trans]);
     try (intros; tauto); try exact I; try (intros; exact I).
   - apply kpart_ok.
@@ -317,4 +400,13 @@ Proof.
   - intros c ol. unfold real_wf_dict. simpl. split; intros; [split; intros; auto|exact I].
   - intros d. unfold real_wf_dict. simpl. split; intros; auto.
   - intros d _. unfold real_wf_dict. simpl. auto.
+Qed.
+
+Theorem id_codecs_closed : codecs_closed id_codecs.
+Proof.
+  constructor; simpl; try (intros c x _; exact I); try (intros; exact I).
+  - intros c x H. destruct c; try discriminate. simpl in H. destruct (forallb _ l) eqn:E; [|discriminate]. inversion H; subst. exact E.
+  - intros c l H. destruct c; try discriminate. simpl in H. destruct (forallb _ l0) eqn:E; [|discriminate]. inversion H; subst.
+    apply Forall_forall. intros e He. rewrite forallb_forall in E. exact (E e He).
+  - intros r i _ gs _. apply Forall_forall. intros; exact I.
 Qed.
